@@ -17,7 +17,9 @@ class World {
     if (t === 'string') {
       // Function.prototype.toString exposes the SOURCE TEXT of a function, which any re-printing changes
       // (layout, `=> e` vs `=> { return e; }`): strings carrying function source are compared modulo layout
-      if (v.includes('function') || v.includes('=>')) v = v.replace(/\s+/g, '').replace(/=>\{return(.*?);?\}/g, '=>$1').replace(/;\}/g, '}').replace(/=>\((.*?)\)$/g, '=>$1')
+      // (layout, `=> e` vs `=> { return e; }`) and which, when the body holds an instrumented operation, shows the
+      // hook calls themselves: of such a string only the text before the function source is compared
+      if (v.includes('function') || v.includes('=>')) { const cut = Math.min(...['function', '=>'].map((k) => v.indexOf(k)).filter((i) => i >= 0)); v = v.slice(0, cut).replace(/\s+/g, '') + '<function source>' }
       return JSON.stringify(v)
     }
     if (t === 'number' || t === 'boolean' || t === 'bigint') return t[0] + ':' + String(v)
